@@ -73,8 +73,8 @@ def pairs(w1, w2, r, nmax, nrand):
 # ----------------------------------------------------------------------------- case generation
 def gen_cases(tier):
     thorough = tier == "thorough"
-    NMAX = 1024 if not thorough else 4096
-    NR = 24 if not thorough else 200
+    NMAX = 2048 if not thorough else 65536
+    NR = 48 if not thorough else 800
     groups = []   # (head, [operand strings])
 
     def add(head, ops_list):
@@ -83,9 +83,9 @@ def gen_cases(tier):
 
     small = list(range(1, 17))
     r = rng_for("widths")
-    big = sorted(set(r.sample(BIG_WIDTHS, 6 if not thorough else len(BIG_WIDTHS)) + [64, 65, 130]))
+    big = sorted(set(r.sample(BIG_WIDTHS, 7) + [r.randrange(17, 131) for _ in range(3)] + [64, 65, 130]))
     if thorough:
-        big = sorted(set(big + [r.randrange(17, 131) for _ in range(10)]))
+        big = list(range(17, 131))
 
     # unary bit-vector primitives
     for prim, wmin in (("bitcount", 1), ("encoder", 2), ("prienc", 1), ("clz", 1), ("grayenc", 1),
@@ -108,7 +108,7 @@ def gen_cases(tier):
             if w > 130:
                 continue
             rr = rng_for("pritree%d" % bps, w)
-            nm = NMAX if bps <= 2 else 256
+            nm = NMAX if bps <= 2 else NMAX // 4
             add(f"pritree {w} {bps}", [hx(v) for v in operand_values(w, rr, nm, NR)])
     # registered tree: traces with held and per-cycle changing operands
     for (w, bps) in [(4, 1), (5, 1), (8, 1), (9, 2), (16, 2), (17, 1), (17, 2), (33, 2), (64, 3), (65, 2)] + ([(w, b) for w in (3, 6, 7, 12, 20, 100, 130) for b in (1, 2)] if thorough else []):
@@ -487,14 +487,32 @@ def same(impl, model):
             return False
     return True
 
+def petree_depth(bps, n):
+    ib = next_pow2((n + (1 << bps) - 1) >> bps)
+    if ib <= 1:
+        return 0
+    return 1 + max(petree_depth(bps, min(ib, n - o)) for o in range(0, n, ib))
+
 def classify(prim, params, ops):
+    """(width class, operand class, non-trivial?) - which case splits of the model/proofs a case exercises"""
     try:
         vals = [int(t, 16) for o in ops for t in o.split(",")]
     except ValueError:
         vals = []
     w = params[0] if params else 0
     cls = "w<=16" if w <= 16 else "w in 17..64" if w <= 64 else "w>64"
-    return cls, any(vals)
+    if prim in ("pritree", "pritreereg"):
+        oc = "tree depth %d" % petree_depth(params[1], params[0]) + ("" if w & (w - 1) else " pow2-width")
+    elif prim in ("cntend", "cntw", "cntdyn", "updown", "ldivp"):
+        oc = "trace"
+    elif prim in ("ldiv", "sldiv") and len(vals) == 2:
+        oc = "den=0" if vals[1] == 0 else "num<den" if vals[0] < vals[1] else "num=den" if vals[0] == vals[1] else "num>den"
+    elif len(vals) >= 1 and prim not in ("crcst", "crcwk", "csa"):
+        x = vals[0]
+        oc = "zero" if x == 0 else "one-hot" if x & (x - 1) == 0 else "all-ones" if x == (1 << w) - 1 else "generic"
+    else:
+        oc = "generic"
+    return cls, oc, any(vals)
 
 def main():
     tier = V.tier()
@@ -532,15 +550,16 @@ def main():
 
     # ---- diff + oracle
     total = 0; tie_bad = []; oracle_bad = []; judged = 0; exc = []
-    repaired = collections.Counter(); hist = collections.Counter(); cls_hist = collections.Counter(); distinct = set(); samples = []
+    op_hist = collections.Counter(); repaired = collections.Counter(); hist = collections.Counter(); cls_hist = collections.Counter(); distinct = set(); samples = []
     for head, opsl in groups:
         toks = head.split(); prim = toks[0]; params = [int(t) for t in toks[1:]]
         for o in opsl:
             line = f"{head} : {o}"
             total += 1
             hist[prim] += 1
-            cls, nontriv = classify(prim, params, o.split())
+            cls, oc, nontriv = classify(prim, params, o.split())
             cls_hist[cls] += 1
+            op_hist[prim + ": " + oc] += 1
             if nontriv:
                 distinct.add(line)
             iv = impl.get(line)
@@ -569,12 +588,13 @@ def main():
     rep.cov["distinct_nontrivial"] = len(distinct)
     rep.cov["rule"] = ("cases = (primitive, width/parameters, operand tuple or per-cycle trace): operands exhaustive while the operand space of a design is <= %d "
                        "combinations (widths 1..16), boundary values + walking ones + seeded random above, widths 17..130 sampled incl. 63/64/65 and 127..130; "
-                       "a case is non-trivial when at least one operand / trace input is non-zero; distinct = distinct case lines" % (1024 if tier == "quick" else 4096))
+                       "a case is non-trivial when at least one operand / trace input is non-zero; distinct = distinct case lines" % (2048 if tier == "quick" else 65536))
     rep.cov["samples"] = samples
     rep.cov["traces_validated_against_impl"] = total - len(tie_bad) if model else 0
     rep.cov["designs_built"] = len(groups)
     rep.cov["per_primitive"] = dict(hist)
     rep.cov["width_classes"] = dict(cls_hist)
+    rep.cov["case_class_histogram"] = dict(sorted(op_hist.items()))
     rep.cov["oracle_judged"] = judged
     rep.cov["oracle_mismatches"] = len(oracle_bad)
     rep.cov["tie_mismatches"] = len(tie_bad)
@@ -648,6 +668,12 @@ def main():
                                cases=[t[0] for t in tie_bad[:20]],
                                failed_theorems=res["failed"], coq_log=res["log"][-1500:] if not res["ok"] else "",
                                note="no input found on which the implementation deviates from the python oracle"), nofail=True, tag="tie")
+    if tier == "thorough" and res["ok"]:
+        rc, out = V.run(["coqchk", "-silent", "-o", "-Q", "Gatery", "Gatery", "Gatery.Properties_C17"], cwd=str(V.COQ), timeout=1200)
+        m = out[out.find("* Axioms:"):] if "* Axioms:" in out else out[-400:]
+        rep.cov["coqchk"] = dict(rc=rc, summary=" ".join(m.split())[:600])
+        if rc != 0:
+            rep.violation(dict(property=CID, what_broke=["coqchk rejected Properties_C17: " + out[-800:]]), nofail=True, tag="coqchk")
     rep.cov["wall_breakdown_s"] = round(time.time() - T0, 1)
     rep.finish()
 
